@@ -36,6 +36,10 @@ compute_boundaries = Contract(
         ("C44-in-range", "all(0 <= result[i] and result[i] <= n_old_partitions for i in range(len(result)))"),
         ("C44-order-preserved", "all(result[i] <= result[i + 1] for i in range(n_new_partitions))"),
     ],
+    ghost=[("after", "npartitions_ratio = n_old_partitions / n_new_partitions",
+            'assert_(npartitions_ratio >= 1, "ratio-at-least-one (rounding does not cross the integer 1)")\n'
+            'assert_(npartitions_ratio * n_new_partitions <= n_old_partitions + 1, "ratio-times-count-bounded")\n'
+            'assert_(all(k * npartitions_ratio <= n_old_partitions + 2 and k * npartitions_ratio >= 0 for k in range(n_new_partitions + 1)), "every-product-in-the-exact-integer-range")')],
     note="float arithmetic under the explicit rounding model (2**-53 relative error per operation, integers exact)",
 )
 
